@@ -16,7 +16,7 @@ PKG = {'version': ['C01', 'C02', 'C03', 'C06', 'C18'], 'dependency': ['C04', 'C0
 
 
 def run(patch, props):
-    env = dict(os.environ, MAXL='3', CLIP='260')
+    env = dict(os.environ, MAXL='400', CLIP='260')
     p = subprocess.run(['/verif/tools/scratchtest.sh', patch] + props, env=env, capture_output=True, text=True)
     return p.stdout + p.stderr
 
